@@ -64,12 +64,17 @@ class SimHostBase(HostContext):
     """HostContext whose commands are answered from a table (so every isinstance(ctx, HostContext) branch of the real
     code stays active); pipelines keep their real ``grep`` stage."""
 
-    def __init__(self, root, table, clock, scratch):
-        super(SimHostBase, self).__init__(root=root, timeout=30)
-        self.table = table
-        self.clock = clock
-        self.scratch = scratch
+    _table = _clock = _scratch = None          # set on the generated sub-class when collect() itself constructs the context
+    _instances = None
+
+    def __init__(self, root="/", table=None, clock=None, scratch=None, timeout=30):
+        super(SimHostBase, self).__init__(root=root, timeout=timeout)
+        self.table = table if table is not None else self._table
+        self.clock = clock if clock is not None else self._clock
+        self.scratch = scratch if scratch is not None else self._scratch
         self.executed = []
+        if self._instances is not None:
+            self._instances.append(self)
 
     def check_output(self, cmd, timeout=None, keep_rc=False, env=None, signum=None):
         if isinstance(cmd, list) and cmd and isinstance(cmd[0], list):
@@ -153,7 +158,7 @@ def gen_case(st, tier, flavour):
     case = {"w": "w2", "flavour": flavour, "root_mode": "tree" if rk.random() < 0.8 else "slash",
             "sibling": rp.choice(["root2", "rootX", "root_backup", "root.old"]),
             "files": {}, "links": [], "outside": {}, "specs": [], "table": {}, "rm_conf": {}, "faults": [], "corrupt": [],
-            "obfuscate": False, "hash_seed": rk.getrandbits(32)}
+            "obfuscate": False, "hash_seed": rk.getrandbits(32), "entry": "collect" if rk.random() < 0.25 else "mirror"}
     files = case["files"]
     sib = case["sibling"]
 
@@ -226,7 +231,7 @@ def gen_case(st, tier, flavour):
              "command_with_args", "foreach_execute", "container_execute", "container_collect", "memory"]
     chosen = [k for k in kinds if rp.random() < 0.55] or ["simple_file"]
     rp.shuffle(chosen)
-    file_bases = ["etc/hosts", "etc/fstab", "etc/sysconfig/net", "var/lib/data", "etc/motd", "etc/issue"]
+    file_bases = ["etc/hosts", "etc/fstab", "etc/sysconfig/net", "var/lib/data", "etc/motd", "etc/issue", "etc/my  app.conf"]
     rp.shuffle(file_bases)
     for i, k in enumerate(chosen):
         sp = {"name": "s%02d" % i, "factory": k, "save_as": None, "fail": False}
@@ -278,9 +283,9 @@ def gen_case(st, tier, flavour):
                 for n in names:
                     pass
         elif k == "simple_command":
-            cmd = rp.choice(["/bin/uname -a", "/usr/sbin/lsmod", "/bin/show all"])
-            add_cmd(cmd, fail=rf.random() < 0.1)
-            sp["cmd"] = cmd
+            cmd = rp.choice(["/bin/uname -a", "/usr/sbin/lsmod", "/bin/show all", "/bin/runas -l  db2  -c cfg"])
+            add_cmd(" ".join(cmd.split()), fail=rf.random() < 0.1)       # the table is keyed by what gets executed
+            sp["cmd"] = cmd                                               # ... the spec may be spelled with runs of blanks
             if rp.random() < 0.25:
                 sp["save_as"] = rp.choice(["cmd_saved_" + sp["name"], "{BASE}/absout/cmd_saved_%s/" % sp["name"]])
             if rf.random() < 0.08:
@@ -341,7 +346,7 @@ def gen_case(st, tier, flavour):
                     if e:
                         dfiles.append("/var/log/%s.log" % rk.choice(e))
                 elif sp["factory"] == "simple_command":
-                    dcmds.append(sp["cmd"] if rk.random() < 0.6 else sp["cmd"].split()[0])
+                    dcmds.append(sp["cmd"] if rk.random() < 0.6 else rk.choice([sp["cmd"].split()[0], sp["cmd"].rsplit(" ", 1)[0]]))
                 elif sp["factory"] == "command_with_args":
                     dcmds.append(rk.choice(["/bin/argcmd %s" % sp["arg"], "/bin/argcmd"]))
                 elif sp["factory"] == "foreach_execute":
@@ -354,6 +359,9 @@ def gen_case(st, tier, flavour):
                 dcomps.append(sp["name"])
         case["rm_conf"] = {"files": dfiles, "commands": dcmds, "components": dcomps}
     # ---- faults during persist and corruption between the phases (C11)
+    if flavour == "C11" and case["entry"] == "mirror" and rk.random() < 0.2:
+        # parallel marshalling: Hydration(pool=...) serializes the elements of a multi-output spec on a pool
+        case["marshal_pool"] = {"workers": rk.choice([2, 2, 3, 4]), "seed": rk.getrandbits(32), "p": rk.choice([0.05, 0.15, 0.3])}
     if flavour == "C11":
         if rf.random() < 0.3:
             for _ in range(rf.choice([1, 1, 2])):
@@ -697,8 +705,16 @@ def collect_phase(case, env, Ctx, rps, impls, stats):
                     rec["error"] = type(e).__name__
                 recs.append(rec)
             snapshots[dr.get_name(comp)] = recs
-    h = Hydration(env.out, ctx)
+    simpool = None
+    if case.get("marshal_pool"):
+        from simkit.simpool import SimPool
+        mp = case["marshal_pool"]
+        simpool = SimPool(random.Random(mp["seed"]), max_workers=mp["workers"], policy={"kind": "walk", "p": mp["p"]},
+                          traced_files=(serde.__file__, sf.__file__))
+        stats["probes"]["cases_with_marshal_pool"] = 1
+    h = Hydration(env.out, ctx, pool=simpool)
     persister = h.make_persister(to_persist)
+    c.faulted = {}          # component name -> what kind of persist fault hit it
 
     def observer(comp, b):
         if case["flavour"] == "C11":
@@ -709,7 +725,21 @@ def collect_phase(case, env, Ctx, rps, impls, stats):
                 snap(comp, b)
             finally:
                 mon.enabled = True
-        persister(comp, b)
+        n0, m0 = len(mon.fired), len(fired_writes)
+        try:
+            persister(comp, b)
+        finally:
+            kinds = []
+            for k, path, _ in mon.fired[n0:]:
+                if k == "mkdir" and not path.startswith(os.path.join(env.out, "data", "")):
+                    kinds.append("setup-error")          # creating meta_data/ or data/ itself failed: nothing of this entry is kept
+                else:
+                    kinds.append("data-error" if os.path.join(env.out, "data") in path else "meta-error")
+            for k, nm in fired_writes[m0:]:
+                where = "data" if os.path.join(env.out, "data") in str(nm) else "meta"
+                kinds.append("%s-%s" % (where, "short" if k == "short" else "error"))
+            if kinds:
+                c.faulted[dr.get_name(comp)] = kinds
     fired_writes = []
     faults = [Fault(f["kind"], f["nth"], getattr(errno, f["errno"]), under=env.out) for f in case["faults"]
               if f["kind"] in ("write-open", "mkdir")]
@@ -724,6 +754,11 @@ def collect_phase(case, env, Ctx, rps, impls, stats):
             raise
         except Exception as e:
             escaped = e
+        finally:
+            if simpool is not None:
+                simpool.shutdown()
+    if simpool is not None:
+        stats["probes"]["marshal_pool_switches"] = stats["probes"].get("marshal_pool_switches", 0) + len(simpool.switches)
     c.broker = broker
     c.ctx = ctx
     c.mon = mon
@@ -732,6 +767,105 @@ def collect_phase(case, env, Ctx, rps, impls, stats):
     c.fired = [(k, errno.errorcode.get(e, e)) for k, _, e in mon.fired] + [(k, "data") for k, _ in fired_writes]
     for k, e in c.fired:
         stats["faults_fired"]["%s:%s" % (k, e)] = stats["faults_fired"].get("%s:%s" % (k, e), 0) + 1
+    return c
+
+
+class Spy(object):
+    """Global observer (dr.add_observer) with a seeded hash: gets hold of the broker collect() creates internally."""
+    _verif_generated = True
+
+    def __init__(self, fn, h):
+        self.fn = fn
+        self._h = h
+        self.__name__ = "spy"
+
+    def __hash__(self):
+        return self._h
+
+    def __eq__(self, o):
+        return self is o
+
+    def __call__(self, comp, broker):
+        self.fn(comp, broker)
+
+
+def collect_phase_real(case, env, Ctx, rps, impls, stats):
+    """The real entry point: insights.collect.collect() with a manifest naming the simulated context and the generated
+    spec package (so manifest handling, apply_default_enabled / apply_configs / apply_blacklist ordering, persist
+    selection and the run strategy are the code's own)."""
+    from insights import collect as collect_mod
+    c = Collected()
+    rm = dict(case["rm_conf"])
+    if rm.get("files"):
+        rm["files"] = [env.prefix + f for f in rm["files"]]
+    if rm.get("components"):
+        rm["components"] = [dr.get_name(impls[n]) for n in rm["components"] if n in impls]
+    c.rm = rm
+    Ctx._table, Ctx._clock, Ctx._scratch, Ctx._instances = case["table"], env.clock, env.tmp, []
+    _mod.SimHostContext = Ctx
+    dr.COMPONENT_IMPORT_CACHE.clear()
+    manifest = {"version": 0,
+                "client": {"context": {"class": MOD + ".SimHostContext", "args": {"root": env.root}},
+                           "blacklist": {"files": [], "commands": [], "patterns": [], "keywords": []},
+                           "persist": [{"name": MOD + ".VSpecs", "enabled": True}],
+                           "run_strategy": {"name": "serial", "args": {"max_workers": None}}},
+                "plugins": {"default_component_enabled": False, "packages": [],
+                            "configs": [{"name": MOD + ".VDefault", "enabled": True}, {"name": MOD + ".VSpecs", "enabled": True}]}}
+    to_persist = set(rps.values())
+    snapshots = {}
+    brokers = []
+    fired_writes = []
+    # faults hit the persist area (meta_data/, data/); an I/O error while collect() sets up its working directory aborts
+    # the collection as a whole, which no listed property speaks about
+    area = (os.path.join(env.out, "meta_data"), os.path.join(env.out, "data"))
+    faults = [Fault(f["kind"], f["nth"], getattr(errno, f["errno"]), under=area) for f in case["faults"]
+              if f["kind"] in ("write-open", "mkdir")]
+    install_write_faults(case, env, fired_writes)
+    mon = Monitor(root=env.base, faults=faults)
+
+    def spy(comp, b):
+        if not brokers:
+            brokers.append(b)
+        if case["flavour"] == "C11" and comp in to_persist and comp in b:
+            mon.enabled = False
+            try:
+                recs = []
+                for p in flatten(b[comp]):
+                    rec = {"cls": type(p).__name__, "cmd": getattr(p, "cmd", None), "args": getattr(p, "args", None),
+                           "relative_path": p.relative_path, "save_as": p.save_as}
+                    try:
+                        if isinstance(p, RawFileProvider):
+                            with open(p.path, "rb") as f:
+                                rec["bytes"] = f.read()
+                        else:
+                            rec["lines"] = list(p.content)
+                    except Exception as e:
+                        rec["error"] = type(e).__name__
+                    recs.append(rec)
+                snapshots[dr.get_name(comp)] = recs
+            finally:
+                mon.enabled = True
+    from simkit.seeds import h64
+    dr.add_observer(Spy(spy, h64(case.get("hash_seed", 0), "spy") % (1 << 40)), dr.ComponentType)
+    escaped = None
+    with mon:
+        try:
+            collect_mod.collect(client_config=None, rm_conf=dict(rm), tmp_path=os.path.dirname(env.out),
+                                archive_name=os.path.basename(env.out), manifest=manifest)
+        except HarnessError:
+            raise
+        except Exception as e:
+            escaped = e
+    c.broker = brokers[0] if brokers else dr.Broker()
+    ctxs = Ctx._instances or []
+    c.ctx = ctxs[0] if ctxs else Ctx(env.root)
+    c.mon = mon
+    c.snapshots = snapshots
+    c.escaped = escaped
+    c.fired = [(k, errno.errorcode.get(e, e)) for k, _, e in mon.fired] + [(k, "data") for k, _ in fired_writes]
+    for k, e in c.fired:
+        stats["faults_fired"]["%s:%s" % (k, e)] = stats["faults_fired"].get("%s:%s" % (k, e), 0) + 1
+    stats["probes"]["real_collect_entry_point"] = stats["probes"].get("real_collect_entry_point", 0) + 1
     return c
 
 
@@ -791,7 +925,8 @@ def oracle_c06(case, env, c, rps, impls, stats):
                     viols.append(V("C06.deny", "denied-file-opened", "%s touched %s which the deny list names (%s)" % (kind, x[strip:], sorted(dfiles))))
     for first in c.ctx.executed:
         for dc in dcmds:
-            if first == dc or first.startswith(dc + " "):
+            dcn = " ".join(dc.split())          # the executed command line is re-joined with single blanks
+            if first == dcn or first.startswith(dcn + " "):
                 viols.append(V("C06.deny", "denied-command-executed", "command %r was executed although the deny list names %r" % (first, dc)))
     for fq in rm.get("components", []):
         for name, im in impls.items():
@@ -920,7 +1055,11 @@ def oracle_c11(case, env, c, rps, impls, stats):
     if c.escaped is not None:
         viols.append(V("C11.escape", "collect-escape:%s" % type(c.escaped).__name__, "collection raised %r" % (c.escaped,)))
         return viols
-    faulted_persist = bool(c.fired)
+    per_comp = getattr(c, "faulted", None)
+    # mirror mode knows which component was being persisted when a fault fired: only that entry is "damaged"; the real
+    # collect() entry does not expose that, there a persist-time fault relaxes the whole archive
+    faulted_persist = bool(c.fired) and per_comp is None
+    faulted_comps = per_comp or {}
     meta = os.path.join(env.out, "meta_data")
     # what is on disk after collection
     stored = {}
@@ -930,13 +1069,19 @@ def oracle_c11(case, env, c, rps, impls, stats):
                 stored[fn[:-5]] = json.load(open(os.path.join(meta, fn)))
             except ValueError:
                 stored[fn[:-5]] = None
-                if not faulted_persist:
+                if not faulted_persist and fn[:-5] not in faulted_comps:
                     viols.append(V("C11.persist", "metadata-not-json", "%s is not valid JSON after a fault-free collection" % fn))
     # failed components are persisted with their errors
     for name, rp in rps.items():
         fq = dr.get_name(rp)
         excs = [e for e in c.broker.exceptions.get(rp, [])]
-        if excs and not faulted_persist:
+        if fq in faulted_comps and faulted_comps[fq] == ["data-error"] and isinstance(stored.get(fq), dict):
+            # a data file could not be written: the entry must say so (the component failed, at least in part)
+            stats["probes"]["data_write_failures_checked"] = stats["probes"].get("data_write_failures_checked", 0) + 1
+            if not stored[fq].get("errors"):
+                viols.append(V("C11.persist", "failed-data-write-persisted-without-errors",
+                               "%s: writing a data file failed (%s) but the stored entry lists no error" % (name, faulted_comps[fq])))
+        if excs and not faulted_persist and fq not in faulted_comps:
             doc = stored.get(fq)
             tbs = [c.broker.tracebacks.get(e) for e in excs]
             if doc is None:
@@ -960,7 +1105,7 @@ def oracle_c11(case, env, c, rps, impls, stats):
     for name, rp in rps.items():
         fq = dr.get_name(rp)
         doc = stored.get(fq)
-        damaged = fq in touched or faulted_persist
+        damaged = fq in touched or faulted_persist or fq in faulted_comps
         res = doc.get("results") if isinstance(doc, dict) else None
         items = res if isinstance(res, list) else ([res] if res else [])
         snaps = [s for s in c.snapshots.get(fq, [])]
@@ -1066,7 +1211,10 @@ def run_case(case, flavour):
         with registry.scope():
             with Seams(env):
                 Ctx, rps, impls = build_specs(case, env)
-                c = collect_phase(case, env, Ctx, rps, impls, stats)
+                if case.get("entry") == "collect":
+                    c = collect_phase_real(case, env, Ctx, rps, impls, stats)
+                else:
+                    c = collect_phase(case, env, Ctx, rps, impls, stats)
                 if flavour == "C06":
                     viols = oracle_c06(case, env, c, rps, impls, stats)
                 else:
@@ -1081,7 +1229,10 @@ def run_case(case, flavour):
                                    (_s, "<S>"), (_s.lstrip("/"), "<S>"), (os.path.dirname(_s).lstrip("/") + "/", "<P>/")):
                         p = p.replace(a, tag)
                     return p
-                log.append(sorted(set((k, norm(p) if isinstance(p, str) else p) for k, p, _ in c.mon.events if k != "popen")))
+                # (C11: whether the content snapshot or the persister reads a file first depends on the position of
+                # make_persister()'s closure in a set -- an address; reads are therefore not part of the run's identity there)
+                skip = ("popen", "read-open") if flavour == "C11" else ("popen",)
+                log.append(sorted(set((k, norm(p) if isinstance(p, str) else p) for k, p, _ in c.mon.events if k not in skip)))
                 log.append(sorted(c.ctx.executed))
                 for sp in case["specs"]:
                     stats["probes"]["factory_" + sp["factory"]] = stats["probes"].get("factory_" + sp["factory"], 0) + 1
